@@ -31,7 +31,7 @@ def run(repo, chk, tier):
     enumeration_modes(repo, chk)
     mirroring(repo, chk)
     cap_before_evaluation(repo, chk)
-    sampler_selection(repo, chk, 'C06.3s')
+    cap_only(repo, chk)
     names(repo, chk)
 
 
@@ -102,9 +102,19 @@ def mirroring(repo, chk):
     fn = repo.func(CR, 'mixed_rank_graph')
     par = parents(fn.node)
     # results of the pool
-    gets = [n for n in own_nodes(fn.node) if isinstance(n, ast.Assign) and isinstance(n.value, ast.Call) and isinstance(n.value.func, ast.Attribute) and n.value.func.attr == 'get' and isinstance(n.targets[0], ast.Name)]
-    res_names = {g.targets[0].id for g in gets}
-    loops = [n for n in own_nodes(fn.node) if isinstance(n, ast.For) and isinstance(n.iter, ast.Name) and n.iter.id in res_names and isinstance(n.target, ast.Name)]
+    # the loop that walks the scored triplets: a for over a named list whose body appends (to a list) the loop variable or tuples built from it
+    def walks_triplets(n):
+        if not (isinstance(n, ast.For) and isinstance(n.iter, ast.Name) and isinstance(n.target, ast.Name)):
+            return False
+        t = n.target.id
+        for c in ast.walk(n):
+            if isinstance(c, ast.Call) and isinstance(c.func, ast.Attribute) and c.func.attr == 'append' and c.args:
+                if any(isinstance(x, ast.Name) and x.id == t for x in ast.walk(c.args[0])):
+                    return True
+                if isinstance(c.args[0], ast.Name):
+                    return True
+        return False
+    loops = [n for n in own_nodes(fn.node) if walks_triplets(n)]
     if len(loops) != 1:
         chk.bad('C06.1a', 'tuple-shape', fn.site(), 'for triplet in <pool results>: ...', 'no loop over the pool results that mirrors every triplet was found')
         return
@@ -191,7 +201,7 @@ def cap_before_evaluation(repo, chk):
     muts = []
     for n in own_nodes(fn.node):
         if isinstance(n, ast.Call) and n.lineno > sd.lineno:
-            if any(isinstance(a, ast.Name) and a.id == name for a in n.args) and m.dotted(n.func) not in ('random.shuffle', 'len') and n is not amaps[0] and not (isinstance(n.func, ast.Name) and n.func.id == 'len'):
+            if any(isinstance(a, ast.Name) and a.id == name for a in n.args) and m.dotted(n.func) in ('heapq.heapify', 'heapq.heappop', 'heapq.heappush', 'numpy.random.shuffle'):
                 muts.append(n)
             if isinstance(n.func, ast.Attribute) and isinstance(n.func.value, ast.Name) and n.func.value.id == name and n.func.attr in ('append', 'extend', 'insert', 'pop', 'remove', 'clear', 'sort'):
                 muts.append(n)
@@ -219,3 +229,39 @@ def names(repo, chk):
             ok = ast.unparse(e[0]) == f'{comb}[0]' and ast.unparse(e[1]) == f'{comb}[1]'
     chk.expect(ok, 'C06.4', 'origin', fn.site(rets[0]) if rets else fn.site(), ast.unparse(rets[0]) if rets else 'return', 'a triplet carries the two names of the evaluated combination in their original order',
                'the worker must return (combination[0], combination[1], score): names in the row must be those of the evaluated pair, in order')
+
+
+def cap_only(repo, chk):
+    """The sampler reduces the candidate list only by the cap: what it returns is a prefix (length cap) of a permutation of the
+    candidate list.  (Which candidates survive - least evaluated first - is C07's concern.)"""
+    fn = repo.func(CR, 'prior_combinations_sample')
+    cands, args = fn.params[0], fn.params[1]
+    rets = [r for r in returns(fn) if not (isinstance(r.value, (ast.List, ast.Tuple)) and not r.value.elts)]
+    if len(rets) != 1 or not isinstance(rets[0].value, ast.Name):
+        chk.unsure('C06.3s', 'R15', fn.site(), 'return <selected>', 'the sampler does not return a single named list')
+        return
+    sel = rets[0].value.id
+    defs = [n for n in own_nodes(fn.node) if isinstance(n, ast.Assign) and any(isinstance(t, ast.Name) and t.id == sel for t in n.targets)]
+    edits = [n for n in own_nodes(fn.node) if isinstance(n, ast.Call) and isinstance(n.func, ast.Attribute) and isinstance(n.func.value, ast.Name) and n.func.value.id == sel and n.func.attr in ('append', 'extend', 'remove', 'pop', 'insert', 'clear')]
+    if len(defs) != 1 or edits:
+        chk.unsure('C06.3s', 'R15', fn.site(defs[0]) if defs else fn.site(), f'{sel} = <permutation of the candidates>[:cap]', 'the returned list is built in several steps / edited: it cannot be shown statically to be the candidate list reduced only by the cap')
+        return
+    v = defs[0].value
+    cap = f'{args}.combination_number_upper_bound'
+    ok = False
+    why = ''
+    m = fn.module
+    if isinstance(v, ast.Subscript) and isinstance(v.slice, ast.Slice) and v.slice.lower is None and v.slice.step is None and v.slice.upper is not None and ast.unparse(v.slice.upper) == cap:
+        base = v.value
+        # permutations of the candidate list: the list itself, sorted(list, ...), list(reversed(list)), random.sample(list, len(list))
+        if isinstance(base, ast.Name) and base.id == cands:
+            ok = True
+        elif isinstance(base, ast.Call) and isinstance(base.func, ast.Name) and base.func.id in ('sorted', 'list', 'reversed') and base.args and isinstance(base.args[0], ast.Name) and base.args[0].id == cands:
+            ok = True
+        else:
+            why = f'the prefix is taken of `{ast.unparse(base)[:80]}`, which is not (a re-ordering of) the whole candidate list: a filter before the cap can return fewer than min(cap, #candidates) pairs'
+    elif isinstance(v, ast.Call) and m.dotted(v.func) in ('heapq.nsmallest', 'heapq.nlargest') and len(v.args) >= 2 and ast.unparse(v.args[0]) == cap and ast.unparse(v.args[1]) == cands:
+        ok = True
+    else:
+        why = f'the selection `{ast.unparse(v)[:100]}` is not a prefix of length {cap} of the candidate list'
+    chk.expect(ok, 'C06.3s', 'R15', fn.site(defs[0]), ast.unparse(defs[0])[:160], 'the evaluated pairs are the requested pairs reduced only by the cap (a prefix of a re-ordering of the candidate list)', why)
